@@ -50,7 +50,71 @@ func (e *Engine) newCtx(fn *ssa.Function, ct *Contract) *FnCtx {
 	c.alpha0 = c.f.Const("alpha0", SInt)
 	c.f.SetRange(c.alpha0, bi(0), nil)
 	c.curFn = shortKey(FnKey(fn))
+	c.autoAxioms()
 	return c
+}
+
+// autoAxioms asserts the ensures clauses of `//@ lemma auto trusted` functions, universally
+// quantified over their (scalar / string) parameters: the assumed algebraic facts about opaque
+// specification functions. They are listed in every evidence file.
+func (c *FnCtx) autoAxioms() {
+	f := c.f
+	var keys []string
+	for k, ct := range c.e.Contracts.ByKey {
+		if ct.Auto {
+			keys = append(keys, k)
+		}
+	}
+	sort.Strings(keys)
+	for _, k := range keys {
+		ct := c.e.Contracts.ByKey[k]
+		fn := c.e.FnByKey[k]
+		if fn == nil {
+			continue
+		}
+		var vars []*Term
+		var args []Value
+		ok := true
+		for _, p := range fn.Params {
+			s, sok := c.sortOf(p.Type())
+			if !sok {
+				ok = false
+				break
+			}
+			v := f.BoundVar(p.Name(), s)
+			c.typeRange(v, p.Type())
+			vars = append(vars, v)
+			args = append(args, v)
+		}
+		if !ok {
+			c.unsupported("auto axiom %s has a parameter of static-only type", k)
+			continue
+		}
+		for _, en := range ct.Ensures {
+			st := &State{R: f.True(), heap: map[string]*Term{}, alpha: c.alpha0}
+			body, bok := c.evalClause(en.FnName, ct.PkgPath, args, st, nil)
+			if !bok {
+				continue
+			}
+			// side conditions produced while evaluating (type invariants of opaque results) are part of the fact
+			body = f.And(st.R, body)
+			if len(vars) == 0 {
+				c.termAxioms = append(c.termAxioms, body)
+				continue
+			}
+			var guards []*Term
+			for i, v := range vars {
+				if v.sort == SInt {
+					if bits, signed, iok := intInfo(fn.Params[i].Type()); iok {
+						lo, hi := intRange(bits, signed)
+						guards = append(guards, f.mk("<=", SBool, "", f.IntB(lo), v), f.mk("<=", SBool, "", v, f.IntB(hi)))
+					}
+				}
+			}
+			c.termAxioms = append(c.termAxioms, f.Forall(vars, f.Implies(f.And(guards...), body)))
+		}
+		c.axiomsUsed = append(c.axiomsUsed, shortKey(k))
+	}
 }
 
 // VerifyFunction generates the obligations of one function against its contract.
@@ -143,9 +207,11 @@ func (e *Engine) VerifyFunction(key string) (res *FnResult) {
 	_ = rv
 	if out != nil {
 		res.CoverCond = out.R
+		c.coverCond = out.R
 		c.freshBase = c.alpha0
 		// Postconditions are evaluated at every return point separately (simpler terms than on the
 		// merged exit state) and combined into one obligation per clause.
+		chain := &State{R: f.True(), heap: map[string]*Term{}, alpha: out.alpha}
 		for k, en := range ct.Ensures {
 			var parts []*Term
 			for _, r := range fr.rets {
@@ -154,8 +220,8 @@ func (e *Engine) VerifyFunction(key string) (res *FnResult) {
 				cond, _ := c.evalClause(en.FnName, ct.PkgPath, all, rs, entry)
 				parts = append(parts, f.Implies(rs.R, cond))
 			}
-			tst := &State{R: f.True(), heap: map[string]*Term{}, alpha: out.alpha}
-			fr.obligeClause(tst, "ensures", f.And(parts...), en, fmt.Sprintf("postcondition %d", k))
+			// later postconditions may rely on earlier ones (each is reported on its own if it fails)
+			fr.obligeClause(chain, "ensures", f.And(parts...), en, fmt.Sprintf("postcondition %d", k))
 		}
 	} else {
 		c.note("no return is reachable")
